@@ -3026,6 +3026,12 @@ func (dsc *dataStoreCommand) sort(sourceKeyName, byPattern, destKeyName string, 
 	} else {
 		sk, objExists := dsc.getKeyObjectUnlocked(sourceKeyName)
 		if !objExists {
+			if destKeyName != "" {
+				// nothing to store: the destination is deleted
+				dsc.ds.data.remove(destKeyName)
+				output.data = respInt(0)
+				return
+			}
 			output = nativeValueToResp([]any{})
 			return
 		}
@@ -3036,7 +3042,7 @@ func (dsc *dataStoreCommand) sort(sourceKeyName, byPattern, destKeyName string, 
 			vals = make([]sortVal, 0, ss.count)
 			for i := ss.createIterator(); i.next(); {
 				sv := sortVal{
-					data: i.value.(string),
+					data: i.key,
 				}
 				vals = append(vals, sv)
 			}
@@ -3071,31 +3077,53 @@ func (dsc *dataStoreCommand) sort(sourceKeyName, byPattern, destKeyName string, 
 				vals[idx] = val
 			}
 		}
+	} else {
+		// no BY: the elements themselves are the sort keys
+		for idx, val := range vals {
+			val.sortByStr = val.data
+			if !alpha {
+				f64, parseErr := strconv.ParseFloat(val.data, 64)
+				if parseErr != nil {
+					output.data = respErrorString("ERR One or more scores can't be converted into double")
+					return
+				}
+				val.sortByFloat = f64
+			}
+			vals[idx] = val
+		}
 	}
 
 	if !dontSort {
+		// make the result deterministic: equal sort keys are ordered by the elements
+		sort.SliceStable(vals, func(i, j int) bool {
+			if desc {
+				return vals[j].data < vals[i].data
+			}
+			return vals[i].data < vals[j].data
+		})
+
 		// pick a sorting strategy
 		if alpha {
 			if !desc {
 				// asc alpha
-				sort.Slice(vals, func(i, j int) bool {
+				sort.SliceStable(vals, func(i, j int) bool {
 					return vals[i].sortByStr < vals[j].sortByStr
 				})
 			} else {
 				// desc alpha
-				sort.Slice(vals, func(i, j int) bool {
+				sort.SliceStable(vals, func(i, j int) bool {
 					return vals[j].sortByStr < vals[i].sortByStr
 				})
 			}
 		} else {
 			if !desc {
 				// asc numeric
-				sort.Slice(vals, func(i, j int) bool {
+				sort.SliceStable(vals, func(i, j int) bool {
 					return vals[i].sortByFloat < vals[j].sortByFloat
 				})
 			} else {
 				// desc numeric
-				sort.Slice(vals, func(i, j int) bool {
+				sort.SliceStable(vals, func(i, j int) bool {
 					return vals[j].sortByFloat < vals[i].sortByFloat
 				})
 			}
@@ -3156,6 +3184,12 @@ func (dsc *dataStoreCommand) sort(sourceKeyName, byPattern, destKeyName string, 
 	}
 
 	if destKeyName != "" {
+		// the result replaces whatever the destination held; an empty result deletes it
+		dsc.ds.data.remove(destKeyName)
+		if len(a) == 0 {
+			output.data = respInt(0)
+			return
+		}
 		list := dsc.newListUnlocked(destKeyName)
 
 		for _, element := range a {
